@@ -188,4 +188,99 @@ example : FlushSpec exampleRB := flush_spec exampleRB exampleRB_wf
 example : FlushSpec (hlineAt (eraseAt (eraseAt (charAt (RB.new 2 6 0 0) 0 2 0x41) 0 0 2) 0 3 1) 1 1 4 1 3) :=
   flush_spec _ (flushWF_of_flushWFb (by decide +kernel))
 
+/-! ## The columns of a text -/
+
+/-- **text_columns**: for every text the width counter accepts (`decode s = some cs`: its characters, each with the
+    library's `tickit_utf8_wcwidth` as width), the library's own counting (`tickit_utf8_count` without limit) finds
+    `Σ width` columns, and the terminal advances by exactly as many when the text is printed (zero-width characters
+    do not move it, double-width ones move it by two).  The columns a *run* of the text advances the terminal by are
+    the run's columns: `text_run_advances`. -/
+theorem text_columns (s : List UInt8) (cs : List Ch) (hdec : decode s = some cs) (t : GridTerm) :
+    (Utf8.ncountmore s none {} (some ⟨-1, -1, -1, -1⟩)).pos.columns = chCols cs ∧
+    (∀ c ∈ cs, c.width = Utf8.wcwidth c.cp) ∧
+    (t.printBytes (s.take (bytesLen cs))).col = t.col + chCols cs := by
+  have hp := decodeFrom_props s cs _ 0 hdec
+  refine ⟨?_, fun c hc => (hp c hc).2.1, ?_⟩
+  · have := ncountmore_spec s cs hdec ⟨-1, -1, -1, -1⟩ rfl rfl 0 (by omega)
+      (by unfold Within; exact ⟨Or.inl rfl, Or.inl rfl⟩)
+    simp only [List.take_zero, advance, List.drop_zero, prefixLen_nolimit, List.take_length] at this
+    rw [this, advance_columns]
+    simp
+  · have hb := decodeFrom_bytes s cs.length cs _ 0 hdec
+    rw [List.take_length, List.drop_zero] at hb
+    rw [hb, printBytes_chars cs hp, putChs_col]
+
+/-- Non-vacuity: `a`, U+0301 (zero-width), U+FF21 (double-width), `b` occupy 1 + 0 + 2 + 1 = 4 columns. -/
+example : (decode [0x61, 0xcc, 0x81, 0xef, 0xbc, 0xa1, 0x62]).map (fun cs => (cs.length, chCols cs, bytesLen cs)) =
+    some (4, 4, 7) := by decide +kernel
+
+/-! ## The known finding: a CHAR cell that is not one column wide -/
+
+/-- The full statement of C04: `FlushSpec` for every well-formed buffer, *whatever* code point a CHAR cell holds.
+    `flush_spec` is this statement under the hypothesis (`CharOK` in `FlushWF`) that excludes exactly the trigger of
+    the known finding `char_not_one_column`. -/
+def C04_full : Prop := ∀ rb : RB, FlushWFP (fun _ => True) rb → FlushSpec rb
+
+/-- `tickit_renderbuffer_char_at(rb, 0, 1, 0xFF21)` on an empty 1×4 buffer. -/
+def charWideRB : RB := charAt (RB.new 1 4 0 0) 0 1 0xff21
+
+/-- A terminal with blank cells, cursor at the origin. -/
+def blankTerm : GridTerm := { cells := fun _ _ => {}, line := 0, col := 0 }
+
+/-- Counterexample (known finding): the double-width U+FF21 in a CHAR cell spills into column 2, a skipped cell. -/
+theorem C04_full_counterexample : ¬ C04_full := by
+  intro h
+  have hwf : FlushWFP (fun _ => True) charWideRB :=
+    flushWFP_of_flushWFPb (okb := fun _ => true) (fun _ _ => trivial) (by decide +kernel)
+  have := (h charWideRB hwf blankTerm).2 0 2
+  revert this
+  decide +kernel
+
+/-- … and the hypothesis of `flush_spec` is what rules it out. -/
+theorem charWide_not_charOK : ¬ CharOK 0xff21 := by
+  unfold CharOK; decide +kernel
+
+/-! ## The code before the repair of the TEXT case (fixes/C04_flush_wide_cut.patch) -/
+
+/-- `FlushSpec` of the flush as it was before the repair. -/
+def FlushSpecOld (rb : RB) : Prop :=
+  ∀ t : GridTerm,
+    (flushToTermOld rb).out = .ok ∧
+    ∀ l c, cellOK (want rb l c) (t.cells l c) ((t.run (flushToTermOld rb).reqs).cells l c) = true
+
+/-- `"x" U+FF21 "yz"` at column 0, then `Q` over column 2 (the right half of U+FF21). -/
+def cutRB : RB := charAt (textAt (RB.new 1 6 0 0) 0 0 [0x78, 0xef, 0xbc, 0xa1, 0x79, 0x7a]) 0 2 0x51
+
+/-- Before the repair the three runs were printed back to back without a goto: `x`, `Q`, `yz` — the terminal shows
+    `xQyz` in columns 0-3 although `Q` belongs in column 2 and `yz` in columns 3-4. -/
+theorem flush_old_requests :
+    (flushToTermOld cutRB).reqs =
+      [.goto 0 0, .setpen Pen.empty, .print [0x78, 0xef, 0xbc, 0xa1, 0x79, 0x7a] 0 1,
+       .setpen Pen.empty, .print [0x51] 0 1,
+       .setpen Pen.empty, .print [0x78, 0xef, 0xbc, 0xa1, 0x79, 0x7a] 4 2] := by
+  decide +kernel
+
+/-- Counterexample (repaired): a well-formed buffer on which the old flush violates the specification (column 2 shows
+    `y`, not `Q`). -/
+theorem flush_old_wide_cut_counterexample : FlushWF cutRB ∧ ¬ FlushSpecOld cutRB := by
+  refine ⟨flushWF_of_flushWFb (by decide +kernel), ?_⟩
+  intro h
+  have := (h blankTerm).2 0 2
+  revert this
+  decide +kernel
+
+/-- The repaired flush is correct on it (an instance of `flush_spec`). -/
+example : FlushSpec cutRB := flush_spec cutRB flush_old_wide_cut_counterexample.1
+
+/-- U+231A `z` at column 4 of a 1×5 buffer: only the left half of the double-width character is inside. -/
+def edgeRB : RB := textAt (RB.new 1 5 0 0) 0 4 [0xe2, 0x8c, 0x9a, 0x7a]
+
+/-- Counterexample (repaired): before the repair the slice was empty and was printed all the same — a request of length
+    0, which `write_str` takes as "use strlen": through that path the terminal receives the whole rest of the string and
+    column 5, outside the buffer, is overwritten. -/
+theorem flush_old_zero_length_counterexample :
+    (flushToTermOld edgeRB).reqs = [.goto 0 4, .setpen Pen.empty, .print [0xe2, 0x8c, 0x9a, 0x7a] 0 0] ∧
+    (({ blankTerm with viaWriteStr := true }).run (flushToTermOld edgeRB).reqs).cells 0 5 ≠ blankTerm.cells 0 5 := by
+  decide +kernel
+
 end Tickit.Props.C04
